@@ -1,0 +1,57 @@
+//go:build verif
+
+package cli
+
+// Contracts for the command layer, checked by /verif/bin/govc (comment-only file; compiles to nothing).
+
+// The process-exit indirection does not return (assumption A-exit); a call is recorded as evExit(code).
+//@ noreturn var exiter
+
+// --- help token search (C14) ---------------------------------------------------------------------------------------
+//@ pure func isHelp(a string) bool = a == "-h" || a == "--help"
+// helpFrom: least index >= i holding a help token with no `--` before it (from i on), else -1
+//@ pure rec func helpFrom(args []string, i int) int =
+//@     (i < 0 || i >= len(args)) ? -1 : (args[i] == "--" ? -1 : (isHelp(args[i]) ? i : helpFrom(args, i+1)))
+
+//@ func (*Cmd).helpIndex
+//@   ensures def: result == helpFrom(args, 0)
+//@   ensures found: result >= 0 ==> result < len(args) && isHelp(args[result]) &&
+//@       (forall j int :: 0 <= j && j < result ==> args[j] != "--" && !isHelp(args[j]))
+//@   ensures none: result < 0 ==> result == -1 &&
+//@       (forall j int :: 0 <= j && j < len(args) && isHelp(args[j]) ==> (exists m int :: 0 <= m && m < j && args[m] == "--"))
+//@   loop 1 invariant scanned: forall j int :: 0 <= j && j < $k ==> args[j] != "--" && !isHelp(args[j])
+//@   loop 1 invariant def: helpFrom(args, $k) == helpFrom(args, 0)
+//@   loop 2 invariant tried: ($k >= 1 ==> arg != "-h") && ($k >= 2 ==> arg != "--help") && len(searchSet) == 2
+
+// --- subcommand split (C04) -----------------------------------------------------------------------------------------
+//@ pure static func aliasOf(c *Cmd, a string) bool = exists j int :: 0 <= j && j < len(c.aliases) && c.aliases[j] == a
+//@ pure static func isSubAlias(c *Cmd, a string) bool = exists i int :: 0 <= i && i < len(c.commands) && aliasOf(c.commands[i], a)
+
+//@ func (*Cmd).isAlias
+//@   requires recv: c != nil
+//@   ensures def: result == aliasOf(c, arg)
+//@   loop 1 invariant tried: forall j int :: 0 <= j && j < $k ==> c.aliases[j] != arg
+
+//@ func (*Cmd).getOptsAndArgs
+//@   requires recv: c != nil
+//@   requires subs: forall i int :: 0 <= i && i < len(c.commands) ==> c.commands[i] != nil
+//@   ensures range: 0 <= result && result <= len(args)
+//@   ensures before: forall j int :: 0 <= j && j < result ==> !isSubAlias(c, args[j])
+//@   ensures at: result < len(args) ==> isSubAlias(c, args[result])
+//@   loop 1 invariant count: consumed == $k
+//@   loop 1 invariant before: forall j int :: 0 <= j && j < $k ==> !isSubAlias(c, args[j])
+//@   loop 2 invariant tried: forall i int :: 0 <= i && i < $k ==> !aliasOf(c.commands[i], arg)
+
+//@ func (*Cmd).isFirstItemAmong
+//@   ensures def: result == (len(args) > 0 && (exists j int :: 0 <= j && j < len(searchSet) && searchSet[j] == args[0]))
+//@   loop 1 invariant tried: forall j int :: 0 <= j && j < $k ==> searchSet[j] != arg
+
+// --- error policy (C07, C14) -----------------------------------------------------------------------------------------
+// flag.ContinueOnError = 0, flag.ExitOnError = 1, flag.PanicOnError = 2
+//@ func (*Cmd).onError
+//@   requires recv: c != nil
+//@   requires hook: exiter != nil
+//@   let sentinel = err == errHelpRequested || err == errVersionRequested
+//@   ensures returns: ((err == errHelpRequested || err == errVersionRequested) ? c.ErrorHandling != 1 : (c.ErrorHandling != 1 && c.ErrorHandling != 2)) && trace == old(trace)
+//@   panics raise: !(err == errHelpRequested || err == errVersionRequested) && c.ErrorHandling == 2 && panicval == err && trace == old(trace)
+//@   exits status: c.ErrorHandling == 1 && trace == old(trace) ++ seq(evExit((err == errHelpRequested || err == errVersionRequested) ? 0 : 2))
